@@ -7,11 +7,12 @@ A lazy list is a Python list of callables.  Elements are thunk *terms*
 in the type: building a list never consults the environment.
 -/
 import MenpoModel.Core.PyData
+import MenpoModel.Core.C19Glob
 
 namespace MenpoModel.LazyList
 open MenpoModel.PyData
 
-inductive Err | index | value
+inductive Err | index | value | type
 deriving Repr, DecidableEq
 
 inductive LThunk where
@@ -74,6 +75,28 @@ def Sel.resolve (s : Sel) (len : Nat) : Except Err (List Nat) :=
 
 def gather {α} (l : List α) (idx : List Nat) : List α := idx.filterMap (l[·]?)
 
+/-- `LazyList.repeat(n)` builds `[callables] * n`: empty for every `n ≤ 0` -/
+def repCount (n : Int) : Nat := n.toNat
+
+/-- the callable `_import_glob_lazy_list` stores for one path: `partial(_import, path, extension_map,
+landmark_resolver=r, …)` — the importer chosen by the extension, then (images) the landmark resolver -/
+def importThunk (known : List Nat) (r : Option Nat) (f : FileEnt) : LThunk :=
+  let t := LThunk.base ((importKind known f).getD 0) f.id
+  match r with
+  | none => t
+  | some g => .app g t
+
+/-- `partial(f, x)` of `init_from_iterable` (`f = None`: the unlogged identity) -/
+def iterThunk (f : Option Nat) (x : Int) : LThunk :=
+  match f with
+  | none => .const x
+  | some g => .app g (.const x)
+
+def optE {α} (x : Option α) : Except Err α :=
+  match x with
+  | some a => .ok a
+  | none => .error .value
+
 inductive Prog where
   | base (b n : Nat)                 -- init_from_index_callable(g_b, n)
   | map (f : Nat) (p : Prog)         -- p.map(f)
@@ -83,6 +106,9 @@ inductive Prog where
   | add (p q : Prog)                 -- p + q
   | addPlain (p : Prog) (vs : List Int) -- p + [v₀, …]
   | copy (p : Prog)                  -- p.copy()
+  | iter (f : Option Nat) (vs : List Int) -- LazyList.init_from_iterable(vs, f)
+  | glob (r : Option Nat) (known : List Nat) (files : List FileEnt) (max : Option Int)
+      -- _import_glob_lazy_list(sorted listing, extension_map, max_assets, landmark_resolver)
 deriving Repr
 
 def bindE {α β} (x : Except Err α) (f : α → Except Err β) : Except Err β :=
@@ -106,6 +132,8 @@ def Prog.lazy : Prog → Except Err (List LThunk)
   | .add p q => bindE p.lazy fun a => mapE (a ++ ·) q.lazy
   | .addPlain p vs => mapE (· ++ vs.map .const) p.lazy
   | .copy p => p.lazy
+  | .iter f vs => .ok (vs.map (iterThunk f))
+  | .glob r known files max => mapE (List.map (importThunk known r)) (optE (globPaths known files max))
 
 /-- the same program on ordinary (already evaluated) lists: the reference -/
 def Prog.ref (e : Env) : Prog → Except Err (List Int)
@@ -118,6 +146,11 @@ def Prog.ref (e : Env) : Prog → Except Err (List Int)
   | .add p q => bindE (p.ref e) fun a => mapE (a ++ ·) (q.ref e)
   | .addPlain p vs => mapE (· ++ vs) (p.ref e)
   | .copy p => p.ref e
+  | .iter f vs => .ok (vs.map fun x => match f with | none => x | some g => e.fn g x)
+  | .glob r known files max =>
+      mapE (List.map fun f =>
+        let v := e.baseVal ((importKind known f).getD 0) f.id
+        match r with | none => v | some g => e.fn g v) (optE (globPaths known files max))
 
 /-- `p[i]` for a Python int: value and evaluation log -/
 def Prog.getInt (e : Env) (p : Prog) (i : Int) : Except Err (Int × List Ev) :=
@@ -152,6 +185,8 @@ inductive HOp where
   | add (a b : Nat)
   | addPlain (a : Nat) (vs : List Int)
   | copy (a : Nat)
+  | iter (f : Option Nat) (vs : List Int)
+  | glob (r : Option Nat) (known : List Nat) (files : List FileEnt) (max : Option Int)
 deriving Repr
 
 /-- the value an operation computes from its operand lists (shared with `Prog.lazy`) -/
@@ -178,6 +213,8 @@ def opValue (h : Heap) : HOp → Except Err (List LThunk)
   | .copy a => match h[a]? with
     | some ts => .ok ts
     | none => .error .index
+  | .iter f vs => .ok (vs.map (iterThunk f))
+  | .glob r known files max => mapE (List.map (importThunk known r)) (optE (globPaths known files max))
 
 /-- one operation: on success the result is stored in a new cell; a refused operation changes nothing -/
 def hstep (h : Heap) (op : HOp) : Heap :=
